@@ -1,7 +1,7 @@
 # -*- coding: utf-8 -*-
 """PX calls: resolution, inlining, constructors, hdf5-layer and raw h5py storage events."""
 import ast
-from .values import V, const, NONE, TRUE, FALSE, is_const, show, obj, clsobj, h5, py
+from .values import V, const, NONE, TRUE, FALSE, is_const, show, obj, clsobj, h5, py, subterms
 from .model import AnalysisError, Func, ClassInfo
 from .px_core import Need, Event, Frame, ExcInfo, _Return, _Raise, BUILTIN_EXC_BASES
 from .px_attr import PRESENT
@@ -678,6 +678,8 @@ class CallMixin:
         if fr.try_catch:
             for rc in sorted(fr.try_catch[-1]):
                 if rc != "*":
+                    if leaf == "UUID" and any(x and x[0] == "call" and x[1] == "uuid4" for a in args for x in subterms(a.t)):
+                        continue        # TAB: the text of a freshly generated uuid4 always parses
                     if self.decide(("xraise", dotted, tuple(a.t for a in args), rc)):
                         marker = V(("xraise", dotted, tuple(a.t for a in args)), (), dep)
                         fr.ctrl.append((marker, True))
@@ -797,6 +799,13 @@ class CallMixin:
                 ext = [n for n in names if n not in self.M.classes]
                 if not ext or not any(self.M.ext_bases(self.M.classes[c]) for c in cl):
                     return FALSE
+        if cl and all(c in self.M.classes for c in cl) and not repo and all(n.startswith("py:") for n in names):
+            # a repo class instance is an instance of a builtin type only through an external base of that name
+            bases = set()
+            for c in cl:
+                bases |= {b.split(".")[-1] for b in self.M.ext_bases(self.M.classes[c])}
+            if not any(n[3:] in bases for n in names):
+                return FALSE
         if is_const(a):
             v = a.t[1]
             pymap = {"py:int": int, "py:str": str, "py:float": float, "py:bool": bool, "py:bytes": bytes,
